@@ -10,12 +10,19 @@ value; `panic!`/`assert!`/index out of range become `Outcome.panic`; `Outcome.er
 used only for "model fuel exhausted" (never produced when the loop invariants of the
 Rust code hold — the fuel is the bound the code itself guarantees).
 
-Repaired behaviour is modelled for three defects (the pinned tree differed):
+Repaired behaviour is modelled for these defects (the pinned tree differed):
 * D6  `coset_table` scanned the subgroup generators at `canon(1)`; repaired: `canon(0)`.
 * D7  `coset_representative` never consulted the table; repaired: follows `get(i, g)`.
 * D10 `scan_both_ways` / `coset_table` read `w[0]` of an empty word (panic); repaired:
       the letter is only read when the scan stopped inside the word, and only
       non-empty relators are matched against the defining letter.
+* D11 `coset_table` scanned relators only through freshly *defined* entries; entries
+      made by deductions or copied by coincidences were never scanned (Z3, H = ⟨a²⟩
+      gave 2 rows); repaired: a closing pass scans every relator at every row and the
+      subgroup generators at the base row until nothing changes.
+* D12 `compact` numbered the live rows by index; a coincidence can make row 0
+      non-canonical, and then the base coset was not row 0 of the result; repaired:
+      classes are numbered in order of first appearance of a member.
 
 `IntPartition` (src/util/partitions.rs) is modelled by parent/rank vectors; `find`
 does not compress paths and does not grow the vectors — both are unobservable through
@@ -167,21 +174,32 @@ def Table.mergeLoop : Nat → Table → List (Nat × Nat) → Outcome Table
 def Table.merge (t : Table) (a b : Nat) : Outcome Table :=
   Table.mergeLoop (t.rows.size * (2 * t.nrGens) + 1) t [(a, b)]
 
-/-- first loop of `compact`: `old_to_new` -/
-def Table.oldToNew (t : Table) : Array Nat :=
-  ((List.range t.len).foldl
-    (fun (acc : Array Nat × Nat) k =>
-      if t.canon k = k then (acc.1.setIfInBounds k acc.2, acc.2 + 1) else acc)
-    (Array.replicate t.len 0, 0)).1
+/-- first loop of `compact` (D12 repair: classes are numbered in the order of first
+    appearance of a member, so the class of row 0 is number 0):
+    `let c = canon(k); if old_to_new[c] == usize::MAX { old_to_new[c] = n; n += 1 }`;
+    `none` stands for `usize::MAX`; `old_to_new[c]` out of range is an index panic -/
+def Table.oldToNewGo (t : Table) : List Nat → Array (Option Nat) × Nat → Outcome (Array (Option Nat))
+  | [], acc => .ok acc.1
+  | k :: ks, (o2n, n) =>
+    let c := t.canon k
+    match o2n[c]? with
+    | none => .panic
+    | some none => oldToNewGo t ks (o2n.setIfInBounds c (some n), n + 1)
+    | some (some _) => oldToNewGo t ks (o2n, n)
 
-/-- inner loop of `compact` over the letters of the live row `k` -/
-def Table.compactRow (t : Table) (o2n : Array Nat) (k : Nat) : List Int → Table → Outcome Table
+def Table.oldToNew (t : Table) : Outcome (Array (Option Nat)) :=
+  t.oldToNewGo (List.range t.len) (Array.replicate t.len none, 0)
+
+/-- inner loop of `compact` over the letters of the live row `k`; a canonical row always
+    has a number (it was visited as its own member), so the `usize::MAX` branch
+    (`some none`, an allocation failure in `set`) is unreachable and rendered as panic -/
+def Table.compactRow (t : Table) (o2n : Array (Option Nat)) (k : Nat) : List Int → Table → Outcome Table
   | [], res => .ok res
   | g :: gs, res =>
     match t.get k g with
     | .ok (some c) =>
       match o2n[k]?, o2n[c]? with
-      | some k', some c' =>
+      | some (some k'), some (some c') =>
         match res.set k' g c' with
         | .ok res' => compactRow t o2n k gs res'
         | .err => .err
@@ -192,7 +210,7 @@ def Table.compactRow (t : Table) (o2n : Array Nat) (k : Nat) : List Int → Tabl
     | .panic => .panic
 
 /-- second loop of `compact` -/
-def Table.compactRows (t : Table) (o2n : Array Nat) : List Nat → Table → Outcome Table
+def Table.compactRows (t : Table) (o2n : Array (Option Nat)) : List Nat → Table → Outcome Table
   | [], res => .ok res
   | k :: ks, res =>
     if t.canon k = k then
@@ -204,7 +222,10 @@ def Table.compactRows (t : Table) (o2n : Array Nat) : List Nat → Table → Out
 
 /-- `CosetTable::compact` -/
 def Table.compact (t : Table) : Outcome Table :=
-  t.compactRows t.oldToNew (List.range t.len) (Table.new t.nrGens)
+  match t.oldToNew with
+  | .ok o2n => t.compactRows o2n (List.range t.len) (Table.new t.nrGens)
+  | .err => .err
+  | .panic => .panic
 
 /-- what the public API shows of a table: for each row the images under `all_gens()`
     in that order, `-1` for `None` (`Outcome` because `get` can panic) -/
@@ -345,9 +366,58 @@ def mainLoop (rels subs : List (List Int)) : Nat → Nat → Table → Outcome T
     | .err => .err
     | .panic => .panic
 
+/-- `scan_and_merge` (D11 repair): merge the two ends of a completely scanned word -/
+def scanAndMerge (t : Table) (w : List Int) (start : Nat) : Outcome (Table × Bool) :=
+  match scanBothWays t w (t.canon start) with
+  | .ok (head, tail, gap, _) =>
+    if gap = 0 ∧ head ≠ tail then
+      match t.merge head tail with
+      | .ok t' => .ok (t', true)
+      | .err => .err
+      | .panic => .panic
+    else .ok (t, false)
+  | .err => .err
+  | .panic => .panic
+
+/-- `for w in words { changed |= scan_and_merge(table, w, i) }` -/
+def closeWords (i : Nat) : List (List Int) → Table × Bool → Outcome (Table × Bool)
+  | [], s => .ok s
+  | w :: ws, (t, changed) =>
+    match scanAndMerge t w i with
+    | .ok (t', c) => closeWords i ws (t', changed || c)
+    | .err => .err
+    | .panic => .panic
+
+/-- `for i in 0..table.len() { for w in relators { … } }` -/
+def closeRows (relators : List (List Int)) : List Nat → Table × Bool → Outcome (Table × Bool)
+  | [], s => .ok s
+  | i :: is, s =>
+    match closeWords i relators s with
+    | .ok s' => closeRows relators is s'
+    | .err => .err
+    | .panic => .panic
+
+/-- the closing `loop { … if !changed { break } }` of `coset_table` (D11 repair: entries
+    made by deductions and coincidences are scanned).  Every round but the last merges
+    two classes, so there are at most `len + 1` rounds. -/
+def closeLoop (relators subs : List (List Int)) : Nat → Table → Outcome Table
+  | 0, _ => .err
+  | f + 1, t =>
+    match closeRows relators (List.range t.len) (t, false) with
+    | .ok s =>
+      match closeWords 0 subs s with
+      | .ok (t', changed) => if changed then closeLoop relators subs f t' else .ok t'
+      | .err => .err
+      | .panic => .panic
+    | .err => .err
+    | .panic => .panic
+
 /-- `coset_table` before the final `compact()` -/
 def cosetTableRaw (nrGens : Nat) (relators subgroupGens : List (List Int)) : Outcome Table :=
-  mainLoop (expandedRelatorSet relators) subgroupGens (rowLimit + 1) 0 (Table.new nrGens)
+  match mainLoop (expandedRelatorSet relators) subgroupGens (rowLimit + 1) 0 (Table.new nrGens) with
+  | .ok t => closeLoop relators subgroupGens (t.len + 1) t
+  | .err => .err
+  | .panic => .panic
 
 /-- `coset_table` -/
 def cosetTable (nrGens : Nat) (relators subgroupGens : List (List Int)) : Outcome Table :=
@@ -400,6 +470,26 @@ def repsLoop (t : Table) : Nat → List Nat → List (Nat × List Int) → Outco
 /-- `coset_representative`: every queued row is a new key, keys are 0 or images of
     existing rows, so there are at most `len · 2·nr_gens + 1` iterations -/
 def cosetRepresentative (t : Table) : Outcome (List (Nat × List Int)) :=
-  repsLoop t (t.len * (2 * t.nrGens) + 1) [0] [(0, FW.empty)]
+  repsLoop t (t.len * (2 * t.nrGens + 1) + 1) [0] [(0, FW.empty)]
+
+/-! ### a table from its public view -/
+
+/-- column of the letter `g` in the public view (`all_gens()` order: `1..n`, `−1..−n`) -/
+def viewCol (n : Nat) (g : Int) : Option Nat :=
+  if 1 ≤ g ∧ g ≤ n then some (g.toNat - 1)
+  else if 1 ≤ -g ∧ -g ≤ n then some (n + (-g).toNat - 1)
+  else none
+
+/-- the `CosetTable` value with the given public view and no pending coincidences (the
+    shape `compact()` returns): rows are indexed by `g + nr_gens`, the middle column is
+    never used -/
+def Table.ofView (n : Nat) (view : Array (Array Int)) : Table :=
+  { nrGens := n
+    rows := view.map fun r =>
+      ((List.range (2 * n + 1)).map fun (j : Nat) =>
+        match viewCol n ((j : Int) - n) with
+        | some c => r.getD c (-1)
+        | none => (-1 : Int)).toArray
+    part := Part.new }
 
 end DSymVerif.Cosets
